@@ -5,6 +5,7 @@ package seqhash
 // C05: seqhash separates distinct molecules and follows the published v1 form.
 //
 // verif:bound C05 form clause: sequences over the 15 IUPAC codes in both cases (nucleic acids) / the protein alphabet, length 1..3 (quick) / 1..5 (thorough), all flag combinations; brute-force canonical form as a term
+// verif:bound C05 long-sequence clause: linear single-stranded DNA of 65536 (quick) / 65535..131073 (thorough) letters, two symbolic letters near the end: digest of the whole sequence; separation of two such molecules
 // verif:bound C05 separation clause: two inputs of equal length 1..3 (quick) / 1..5 (thorough) over ACGT, and 1..2 / 1..3 over the 15 IUPAC codes, same flags; different flags and different lengths give different tags / digests
 // verif:bound C05 rejection clause: type strings of 3..7 symbolic letters; one symbolic byte outside the alphabet at every position of a sequence of length 1..3 (quick) / 1..4 (thorough); double-stranded proteins
 // verif:assume C05 BLAKE3 is an uninterpreted function per input length and assumed collision-free: digests are equal iff the hashed strings are equal, digests of strings of different length differ. That the digest IS BLAKE3-256 is outside the claim (checked natively on pinned vectors only)
@@ -204,6 +205,27 @@ func Harness_C05_RejectDoubleStrandedProtein() {
 	vAssert(h == "", "no-hash-on-error")
 }
 
+// long sequences: the digest is still the digest of the whole canonical representative
+func Harness_C05_LongForm() {
+	sizes := []int{65536}
+	if vTier(0, 1) == 1 {
+		sizes = []int{65535, 65536, 65537, 131073}
+	}
+	n := sizes[vChoice(len(sizes))]
+	body := make([]byte, n)
+	for i := range body {
+		body[i] = "ACGGTC"[i%6]
+	}
+	s := string(body[:n-3]) + vBytes(2, "ACGTacgt") + "T"
+	h, err := Hash(s, "DNA", false, false)
+	vAssert(err == nil, "accepted")
+	vAssert(len(h) == 71, "length-71")
+	vAssert(vEqStr(h[7:], c05Digest(c05Upper(s))), "digest-of-least-representative")
+	// two molecules that differ in one of the last letters are separated
+	t := string(body[:n-3]) + vBytes(2, "ACGT") + "T"
+	h2, _ := Hash(t, "DNA", false, false)
+	vAssert(vIff(vEqStr(h, h2), vEqStr(c05Upper(s), t)), "equal-hash-iff-same-molecule")
+}
 func Selftest_C05_Pinned() {
 	// natively these are the real BLAKE3 digests pinned by the repository's tests; the
 	// engine prints the same lines up to the digest (uninterpreted there)
